@@ -836,6 +836,11 @@ example : histCircuit.registerDepth.toOption = some ([2, 6], [3], [0]) ∧
     (List.range 2).map (fun i => Spec.regDepth (histSchedule.map (·.2)) ⟨.e, i⟩) = [2, 6] ∧
     Spec.regDepth (histSchedule.map (·.2)) ⟨.c, 0⟩ = 0 ∧ Spec.depth (histSchedule.map (·.2)) = 6 := by decide
 
+/-- the hypothesis "at least one register" of the depth clauses is sharp: on `CircuitDAG(0, 0, 0)` networkx' longest path has 0
+    edges and the code returns `depth = −1`, whereas the longest dependency chain of the (empty) operation list has length 0
+    (the real `CircuitDepth().evaluate` returns −1 there as well; the correspondence harness accepts −1 on the empty graph) -/
+example : Metrics.circuitDepth (Dag.init 0 0 0) = -1 ∧ Spec.depth [] = 0 ∧ (Dag.init 0 0 0).nodeIds = [] := by decide
+
 /-- wire determinacy, non-vacuity: `add(CNOT e0→e1); add(H p0)` and `add(H p0); add(CNOT e0→e1)` are different circuits (the node
     identities are swapped) with the same register counts and the same operation sequence on every wire (kernel-evaluated on the
     wires `reg_gate_history` returns) — the hypotheses of `equal_wires_equal_metrics` -/
